@@ -120,14 +120,14 @@ SPEC = {
                   "offset lies in [0,|file|]; every step consumes at least one byte; no panic site is reachable in "
                   "debug or release builds. Integer literals (full): an accepted literal denotes exactly the "
                   "positional value of its maximal digit run, which fits the payload type; a run >= 2^64, or >= 2^63 "
-                  "with suffix l, is rejected with IntegerLiteralTooLarge at its first digit, and only then. Float "
+                  "with suffix l, or >= 2^32 with suffix u, is rejected with IntegerLiteralTooLarge at its first digit, and only then. Float "
                   "literals (full): token bits = narrowOnce(suffix, nearest64(decimal text)), and nearest64 / "
                   "nearestRat (exact Nat arithmetic) are proved to be IEEE 754 round-to-nearest-ties-to-even "
                   "(IsNearestEven: ulp of x's binade with gradual underflow, no p-bit value closer, at most half an ulp, "
                   "ties to even, overflow rule), total over all digit strings and exponents, exact on representable "
                   "values and monotone. Rust's parse::<f64> / `as f32` are compared bit for bit with that reference and "
                   "with an independent big-integer oracle on every run; literals are also compiled to HLSL and re-read "
-                  "(one open known finding: u-suffixed literals >= 2^32 are truncated by the typer).",
+                  "(no open finding).",
     "rule": "requests = (flags, UTF-8 text) lexed token by token with the real TokenStream (and read_to_end, and unlex); "
             "every fixed spelling of every token kind alone, ordered pairs of operators/trivia/odd bytes glued, random "
             "token soups of 1-10 items with arbitrary trivia, both line endings and splices, and a numeric stream "
